@@ -107,7 +107,53 @@ def _objects():
     class Own(object):
         pass
     cust = Own(name="n", tags=["t", "t"], granular_markings=[{"marking_ref": M1, "selectors": ["name"]}])
-    return [mal, f, ind, cust]
+    # ONE container instance stored at several places of an object (an embedded object reused for two list elements and under a custom
+    # property, one dictionary under two custom properties): each occurrence is addressable
+    ref = stix2.v21.ExternalReference(source_name="src", external_id="1", hashes={"MD5": "0" * 32})
+    kcp = stix2.v21.KillChainPhase(kill_chain_name="k", phase_name="p")
+    dd = {"k": {"n": 1}, "l": [{"m": 0}]}
+    shared = stix2.v21.Malware(name="s", is_family=False, external_references=[ref, {"source_name": "o", "external_id": "2"}, ref], kill_chain_phases=[kcp, kcp],
+                               x_a=dd, x_b=dd, x_c=[dd["k"], dd["k"]], allow_custom=True)
+    return [mal, f, ind, cust, shared]
+
+
+def _shared_dict():
+    """the same situation in a plain dictionary handed to the marking functions"""
+    er = {"source_name": "src", "external_id": "1", "hashes": {"MD5": "0" * 32}}
+    inner = {"n": 1}
+    return {"type": "malware", "spec_version": "2.1", "id": "malware--311b2d2d-f010-4473-83ec-1edf84858f4c", "created": "2020-01-01T00:00:00.000Z",
+            "modified": "2020-01-01T00:00:00.000Z", "name": "s", "is_family": False, "external_references": [er, {"source_name": "o", "external_id": "2"}, er],
+            "x_a": inner, "x_b": inner, "x_c": [inner, inner]}
+
+
+def shared_dict_selectors(si: int) -> bool:
+    """
+    pre: 0 <= si < 64
+    post: _
+    """
+    d = _shared_dict()
+    table = sorted(set(enum_paths(json.loads(json.dumps(d))))) + NEAR
+    if si >= len(table):
+        return True
+    si = pick(si, len(table))
+    with Native():
+        sel = table[si]
+        want = sel in enum_paths(json.loads(json.dumps(d)))
+        ok = True
+        for fn in (lambda: mu.validate(d, [sel]), lambda: markings.add_markings(d, M1, [sel]), lambda: markings.get_markings(d, [sel]),
+                   lambda: markings.is_marked(d, M1, [sel]), lambda: markings.set_markings(d, M1, [sel]),
+                   lambda: stix2.parse(dict(d, granular_markings=[{"marking_ref": M1, "selectors": [sel]}]), allow_custom=True),
+                   lambda: stix2.v21.Malware(**dict({k: v for k, v in d.items() if k != "type"}, granular_markings=[{"marking_ref": M1, "selectors": [sel]}], allow_custom=True))):
+            try:
+                fn()
+                got = True
+            except (InvalidSelectorError, InvalidValueError):
+                got = False
+            except MarkingNotFoundError:
+                got = True
+            ok = ok and got == want
+    V.reached()
+    return ok
 
 
 OBJS = _objects()
@@ -191,19 +237,31 @@ def run_object_case(oi, si):
         d = dict(JS[oi])
         d["granular_markings"] = [{"marking_ref": M1, "selectors": [sel]}]
         try:
-            stix2.parse(d, version=("2.0" if oi == 2 else "2.1"))
+            stix2.parse(d, version=("2.0" if oi == 2 else "2.1"), allow_custom=(oi == 4))
             got = True
         except (InvalidSelectorError, STIXError, ValueError):
             got = False
         if got != want:
             return False
+        if oi == 3:
+            # 3a. a type declared with extension_name, built through its class WITHOUT naming the extension: the entry the class adds is part of
+            # the object from the start and addressable like everything else
+            kw = {k: v for k, v in JS[oi].items() if k not in ("type", "extensions")}
+            kw["granular_markings"] = [{"marking_ref": M1, "selectors": [sel]}]
+            try:
+                built = type(obj)(**kw)
+                got = True
+            except (InvalidSelectorError, STIXError, ValueError):
+                got = False
+            if got != want or (got and json.loads(built.serialize()).get("extensions") != JS[oi]["extensions"]):
+                return False
         # 3b. the same for a language marking (2.1), alone and next to a valid marking-ref marking, and through new_version
         if oi != 2:
             for gm in ([{"lang": "fr", "selectors": [sel]}], [{"marking_ref": M1, "selectors": [PATHS[oi][0]]}, {"lang": "de", "selectors": [sel]}]):
                 d = dict(JS[oi])
                 d["granular_markings"] = gm
                 try:
-                    stix2.parse(d, version="2.1")
+                    stix2.parse(d, version="2.1", allow_custom=(oi == 4))
                     got = True
                 except (InvalidSelectorError, STIXError, ValueError):
                     got = False
